@@ -41,13 +41,16 @@ class SerializeTraits<::std::vector<T, A>>
   }
 
   static bool deserialize(CodedInputStream& is, Value& value) noexcept {
+    const void* data = nullptr;
+    int size = 0;
     if CONSTEXPR_SINCE_CXX17 (::std::is_same<float, T>::value ||
                               ::std::is_same<double, T>::value) {
-      auto num = static_cast<size_t>(is.BytesUntilLimit()) / sizeof(T);
-      value.reserve(value.size() + num);
+      if (is.GetDirectBufferPointer(&data, &size)) {
+        value.reserve(value.size() + static_cast<size_t>(size) / sizeof(T));
+      }
     }
 
-    while (is.BytesUntilLimit() > 0) {
+    while (is.GetDirectBufferPointer(&data, &size)) {
       value.emplace_back();
       if (ABSL_PREDICT_FALSE(!SerializationHelper::deserialize_packed_field(
               is, value.back()))) {
@@ -126,7 +129,9 @@ class SerializeTraits<::std::vector<bool, A>>
   }
 
   static bool deserialize(CodedInputStream& is, Value& value) noexcept {
-    while (is.BytesUntilLimit() > 0) {
+    const void* data = nullptr;
+    int size = 0;
+    while (is.GetDirectBufferPointer(&data, &size)) {
       bool result;
       if (ABSL_PREDICT_FALSE(
               !SerializationHelper::deserialize_packed_field(is, result))) {
